@@ -1750,6 +1750,11 @@ class Transaction(object):
             sig_domain = [''] * n_total_sigs
 
             txid = self.signature_hash(tid, hash_type, self.inputs[tid].witness_type)
+            for sig in self.inputs[tid].signatures:
+                if not sig.public_key:
+                    # Imported signature of another cosigner: find the key it belongs to
+                    sig_keys = [k for k in self.inputs[tid].keys if verify(txid, sig, k)]
+                    sig.public_key = None if not sig_keys else sig_keys[0]
             for key in tid_keys:
                 # Check if signature signs known key and is not already in list
                 if key.public_byte not in pub_key_list:
@@ -1775,10 +1780,6 @@ class Transaction(object):
             # Add already known signatures on correct position
             n_sigs_to_insert = len(self.inputs[tid].signatures)
             for sig in self.inputs[tid].signatures:
-                if not sig.public_key:
-                    # Imported signature of another cosigner: find the key it belongs to
-                    sig_keys = [k for k in self.inputs[tid].keys if verify(txid, sig, k)]
-                    sig.public_key = None if not sig_keys else sig_keys[0]
                 if not sig.public_key:
                     break
                 newsig_pos = pub_key_list.index(sig.public_key.public_byte)
